@@ -281,7 +281,7 @@ func replayHist(sc *simScenario, hist []simEvent) (*simState, error) {
 	}
 	for i, e := range hist {
 		if err := s.apply(e, false); err != nil {
-			return s, fmt.Errorf("replay step %d %v: %v", i, e, err)
+			return s, fmt.Errorf("replay step %d %v: %w", i, e, err)
 		}
 	}
 	return s, nil
@@ -321,7 +321,12 @@ func (w *world) mapOrderRisk() bool {
 	return false
 }
 
-const simOrderRetries = 12
+// Go starts a map iteration at a random slot: with two entries in an 8-slot
+// bucket the rarer order has probability 1/8, hence the generous retry counts.
+const (
+	simOrderRetries = 80 // attempts to reproduce a recorded state
+	simOrderAlts    = 24 // repetitions of a map-order dependent step to collect its outcomes
+)
 
 // replayMatch replays hist until the state with the recorded hash is reached
 // (a history through a map-order dependent step may need several attempts).
@@ -331,6 +336,12 @@ func replayMatch(sc *simScenario, hist []simEvent, want string) (*simState, erro
 	for try := 0; try < simOrderRetries; try++ {
 		s, err = replayHist(sc, hist)
 		if err != nil {
+			// an event of the history may not exist in the other outcome of a
+			// map-order dependent step: try again (a persistent error is reported)
+			if try+1 < simOrderRetries && errors.Is(err, errSimHarness) {
+				s.close()
+				continue
+			}
 			return s, err, false
 		}
 		if want == "" || s.hash() == want {
@@ -401,7 +412,7 @@ func expandState(sc *simScenario, req *expandReq) *expandResp {
 					break
 				}
 			}
-			risk := cur.w.mapOrderRisk()
+			risk := cur.w.mapOrderRisk() || (e.K == "AD" && (strings.HasPrefix(e.S, "demote2") || e.S == "transfer:0"))
 			nv := len(cur.w.led.viol)
 			rec := succRec{Ev: e}
 			if err := cur.apply(e, false); err != nil {
@@ -429,7 +440,7 @@ func expandState(sc *simScenario, req *expandReq) *expandResp {
 			cur.close()
 			if a == 0 && risk && rec.Err == "" {
 				// the outcome may depend on map iteration order: repeat to collect the alternatives
-				attempts = simOrderRetries
+				attempts = simOrderAlts
 				resp.OrderSteps++
 			}
 		}
